@@ -1,6 +1,7 @@
 package gen
 
 import (
+	"encoding/base64"
 	"fmt"
 	"reflect"
 )
@@ -17,7 +18,7 @@ func Eval(sd *SchemaDesc, d *Doc, w *World) (result interface{}, err error) {
 		}
 	}()
 	e := &evaluator{sd: sd, d: d, w: w, applyForeign: true}
-	return e.object("Query", nil, []*SelSet{d.Root}, nil, false), nil
+	return e.object(d.RootType(), nil, []*SelSet{d.Root}, nil, false), nil
 }
 
 // EvalForeign is Eval with an explicit choice for a fragment that sits in an
@@ -33,7 +34,7 @@ func EvalForeign(sd *SchemaDesc, d *Doc, w *World, apply bool) (result interface
 		}
 	}()
 	e := &evaluator{sd: sd, d: d, w: w, applyForeign: apply}
-	return e.object("Query", nil, []*SelSet{d.Root}, nil, false), nil
+	return e.object(d.RootType(), nil, []*SelSet{d.Root}, nil, false), nil
 }
 
 // Resolution is one field resolution a sequential evaluation performs.
@@ -53,7 +54,7 @@ func EvalTrace(sd *SchemaDesc, d *Doc, w *World, on func(Resolution)) (result in
 		}
 	}()
 	e := &evaluator{sd: sd, d: d, w: w, on: on, applyForeign: true}
-	return e.object("Query", nil, []*SelSet{d.Root}, nil, false), nil
+	return e.object(d.RootType(), nil, []*SelSet{d.Root}, nil, false), nil
 }
 
 type evaluator struct {
@@ -186,6 +187,10 @@ func (e *evaluator) complete(v interface{}, tr TypeRef, subs []*SelSet, path []s
 		}
 		return out
 	case KScalar:
+		if b, ok := v.([]byte); ok {
+			// a byte string is rendered in base64; a nil one is the empty string
+			return base64.StdEncoding.EncodeToString(b)
+		}
 		return v
 	case KEnum:
 		return ColorNames[v.(Color)]
